@@ -103,11 +103,17 @@ var thresholds = []int{-1, 0, 1, 2, 63, 64, 256, 1 << 15, 1 << 21}
 var (
 	forceExact     bool
 	forceThreshold int
+	// forced once per run: a two-frame sequence whose second frame is a zlib frame of almost 2 MiB written by the
+	// independent writer
+	forceIndep bool
 )
 
 func genThreshold(r *vm.Rand, big bool) int {
 	if big && forceExact {
 		return forceThreshold
+	}
+	if big && forceIndep {
+		return []int{0, 64, 256}[r.Intn(3)]
 	}
 	if r.Intn(4) == 0 {
 		return r.Intn(5000)
@@ -120,7 +126,13 @@ func genThreshold(r *vm.Rand, big bool) int {
 
 func genPayload(r *vm.Rand, n int) []byte {
 	b := make([]byte, n)
-	switch r.Intn(3) {
+	kind := r.Intn(3)
+	if forceExact && forceThreshold >= 0 && forceThreshold < 1<<21 && n > 1<<20 {
+		// the forced maximum-size packets under a compression layer are incompressible: their zlib form is longer than
+		// 2^21-1 bytes, so the total length takes a fourth byte in the 5-byte gap the packer leaves for it
+		kind = 0
+	}
+	switch kind {
 	case 0:
 		r.Fill(b) // incompressible
 	case 1:
@@ -139,6 +151,9 @@ func genPayload(r *vm.Rand, n int) []byte {
 func genSize(r *vm.Rand, threshold int, idLen int, big bool) int {
 	if big && forceExact {
 		return 1<<21 - idLen
+	}
+	if big && forceIndep {
+		return 1<<21 - idLen - r.Intn(3)
 	}
 	n := genSize0(r, threshold, idLen, big)
 	// id+payload is at most the 2 MiB protocol maximum
@@ -185,9 +200,28 @@ func checkSequence(c *vm.Ctx, r *vm.Rand, spy *poolSpy, big bool) {
 	if big {
 		k = r.Range(1, 3)
 	}
+	// a connection starts without compression and is switched once (login: Set Compression): the frames before
+	// switchAt are packed and unpacked with -1, the others with threshold - same stream, same receiver, same pools
+	switchAt := 0
+	if threshold >= 0 && k >= 2 && !(big && forceExact) && r.Intn(3) == 0 {
+		switchAt = r.Range(1, k-1)
+	}
+	thAt := func(i int) int {
+		if i < switchAt {
+			return -1
+		}
+		return threshold
+	}
+	// every second frame comes from an independent writer instead of Pack (either form, any zlib level)
+	mixed := !(big && forceExact) && r.Intn(3) == 0
+	if big && forceIndep {
+		k, switchAt, mixed = 2, 0, true
+	}
 	pkts := make([]pktCase, k)
+	writers := make([]string, k)
 	var stream []byte
 	spy.reset()
+	useConn := r.Intn(4) == 0
 	wit := func(i int) func() any {
 		return func() any {
 			sizes := []int{}
@@ -196,19 +230,52 @@ func checkSequence(c *vm.Ctx, r *vm.Rand, spy *poolSpy, big bool) {
 				sizes = append(sizes, len(p.payload))
 				ids = append(ids, p.id)
 			}
-			return map[string]any{"threshold": threshold, "ids": ids, "payload_sizes": sizes, "failing_index": i}
+			return map[string]any{"threshold": threshold, "no_compression_before_index": switchAt, "ids": ids, "payload_sizes": sizes, "frame_writers": writers, "through_conn": useConn, "failing_index": i}
 		}
 	}
-	useConn := r.Intn(4) == 0
+	var wconn *mcnet.Conn
+	wth := -1 // what the writing Conn is set to
+	if useConn {
+		wconn = mcnet.WrapConn(&fakeConn{r: bytes.NewReader(nil), w: spy}) // starts at -1 by itself
+	}
 	for i := range pkts {
 		id := genID(r)
 		idLen := len(refwire.EncVarInt(id))
+		th := thAt(i)
 		pkts[i] = pktCase{id: id, payload: genPayload(r, genSize(r, threshold, idLen, big))}
+		if mixed && i%2 == 1 {
+			compress := th >= 0 && len(pkts[i].payload)+idLen >= max(th, 1) && (r.Intn(3) != 0 || big && forceIndep)
+			level := []int{0, 1, 6, 9}[r.Intn(4)]
+			writers[i] = fmt.Sprintf("independent(compress=%v,level=%d)", compress, level)
+			frame := refwire.BuildFrame(id, pkts[i].payload, th, compress, level)
+			stream = append(stream, frame...)
+			if compress {
+				c.Cover("sequence.independent-frame.zlib")
+				if len(pkts[i].payload) > 1<<20 {
+					c.Cover("sequence.independent-frame.zlib.above-1MiB")
+				}
+			} else {
+				c.Cover("sequence.independent-frame.plain")
+			}
+			continue
+		}
 		before := spy.out.Len()
 		p := pk.Packet{ID: id, Data: append([]byte{}, pkts[i].payload...)}
 		var err error
-		if c.Guard("pack", wit(i), func() { err = p.Pack(spy, threshold) }) {
-			return
+		if useConn {
+			writers[i] = "Conn.WritePacket"
+			if th != wth { // (the frame at switchAt itself may have come from the independent writer)
+				wconn.SetThreshold(th)
+				wth = th
+			}
+			if c.Guard("pack", wit(i), func() { err = wconn.WritePacket(p) }) {
+				return
+			}
+		} else {
+			writers[i] = "Packet.Pack"
+			if c.Guard("pack", wit(i), func() { err = p.Pack(spy, th) }) {
+				return
+			}
 		}
 		if err != nil {
 			c.Violation("pack/error", "Pack failed: "+err.Error(), wit(i)())
@@ -224,10 +291,10 @@ func checkSequence(c *vm.Ctx, r *vm.Rand, spy *poolSpy, big bool) {
 		}
 		frame := spy.out.Bytes()[before:]
 		// conformance by the independent reader
-		f, perr := refwire.ParseFrame(frame, threshold)
+		f, perr := refwire.ParseFrame(frame, th)
 		switch {
 		case perr != nil:
-			c.Violation("conform/not-a-frame/"+vm.NormMsg(perr.Error()), fmt.Sprintf("independent reader rejects the emitted frame (threshold %d, payload %d bytes): %v; frame starts %s", threshold, len(pkts[i].payload), perr, vm.Hex(frame[:min(len(frame), 48)])), wit(i)())
+			c.Violation("conform/not-a-frame/"+vm.NormMsg(perr.Error()), fmt.Sprintf("independent reader rejects the emitted frame (threshold %d, payload %d bytes): %v; frame starts %s", th, len(pkts[i].payload), perr, vm.Hex(frame[:min(len(frame), 48)])), wit(i)())
 			return
 		case f.Size != len(frame):
 			c.Violation("conform/length-field", fmt.Sprintf("total length field covers %d bytes, %d were emitted", f.Size, len(frame)), wit(i)())
@@ -237,8 +304,16 @@ func checkSequence(c *vm.Ctx, r *vm.Rand, spy *poolSpy, big bool) {
 			return
 		}
 		c.Cover("frame." + frameClass(f))
+		if f.Form == "zlib" {
+			// the zlib form is written behind a 5-byte gap into which the total length is patched afterwards
+			_, ll, _ := refwire.DecVarInt(frame)
+			c.Cover(fmt.Sprintf("frame.zlib.total-length-%d-bytes", ll))
+		}
+		if useConn {
+			c.Cover("via.conn.write")
+		}
 		stream = append(stream, frame...)
-		c.Eval(vm.Hash64(frame[:min(len(frame), 64)], []byte(fmt.Sprint(threshold, len(frame)))), len(pkts[i].payload) > 0)
+		c.Eval(vm.Hash64(frame[:min(len(frame), 64)], []byte(fmt.Sprint(th, len(frame)))), len(pkts[i].payload) > 0)
 	}
 	trailer := []byte{0x01, 0x00, 0xde, 0xad}
 	in := append(append([]byte{}, stream...), trailer...)
@@ -258,7 +333,6 @@ func checkSequence(c *vm.Ctx, r *vm.Rand, spy *poolSpy, big bool) {
 	var conn *mcnet.Conn
 	if useConn {
 		conn = mcnet.WrapConn(&fakeConn{r: bytes.NewReader(in)})
-		conn.SetThreshold(threshold)
 		c.Cover("via.conn")
 	}
 	consumed := func() int {
@@ -271,9 +345,24 @@ func checkSequence(c *vm.Ctx, r *vm.Rand, spy *poolSpy, big bool) {
 		return bs.Pos
 	}
 	off := 0
+	// what every fresh receiver was handed (the slices themselves): looked at again after all later calls
+	var kept [][]byte
+	recheck := func(when string) bool {
+		for j, d := range kept {
+			if !bytes.Equal(d, pkts[j].payload) {
+				c.Violation("pool/returned-data-changed-by-later-calls", fmt.Sprintf("Packet.Data returned for frame %d was equal to the payload then; %s it reads %s..., sent %s...", j, when, vm.Hex(d[:min(len(d), 16)]), vm.Hex(pkts[j].payload[:min(len(d), 16)])), wit(j)())
+				return false
+			}
+		}
+		return true
+	}
 	for i := range pkts {
 		if !reuse {
 			recv = pk.Packet{}
+		}
+		th := thAt(i)
+		if useConn && i == switchAt && th >= 0 {
+			conn.SetThreshold(th) // between two ReadPacket calls when switchAt > 0
 		}
 		var err error
 		if c.Guard("unpack", wit(i), func() {
@@ -281,18 +370,18 @@ func checkSequence(c *vm.Ctx, r *vm.Rand, spy *poolSpy, big bool) {
 			case useConn:
 				err = conn.ReadPacket(&recv)
 			case plain:
-				err = recv.UnPack(pr, threshold)
+				err = recv.UnPack(pr, th)
 			default:
-				err = recv.UnPack(bs, threshold)
+				err = recv.UnPack(bs, th)
 			}
 		}) {
 			return
 		}
 		if err != nil {
-			c.Violation("unpack/error", fmt.Sprintf("UnPack of frame %d packed with the same threshold %d failed: %v", i, threshold, err), wit(i)())
+			c.Violation("unpack/error", fmt.Sprintf("UnPack of frame %d (written by %s) with the same threshold %d failed: %v", i, writers[i], th, err), wit(i)())
 			return
 		}
-		f, _ := refwire.ParseFrame(in[off:], threshold)
+		f, _ := refwire.ParseFrame(in[off:], th)
 		off += f.Size
 		if consumed() != off {
 			c.Violation("unpack/consumed", fmt.Sprintf("after frame %d the stream position is %d, frames so far occupy %d bytes", i, consumed(), off), wit(i)())
@@ -307,15 +396,66 @@ func checkSequence(c *vm.Ctx, r *vm.Rand, spy *poolSpy, big bool) {
 			c.Violation("unpack/content", fmt.Sprintf("frame %d: got id %d / %d bytes, sent id %d / %d bytes (receiver reused=%v)", i, recv.ID, len(recv.Data), pkts[i].id, len(pkts[i].payload), reuse), wit(i)())
 			return
 		}
+		if !reuse {
+			kept = append(kept, recv.Data)
+		}
 	}
 	if consumed() != len(stream) {
 		c.Violation("unpack/trailer-touched", "bytes after the last frame were consumed", wit(-1)())
 		return
 	}
+	if !reuse {
+		if !recheck("after the remaining frames were unpacked") {
+			return
+		}
+		// one more packet, larger than any before, through both packers and both unpackers: whatever the pools hold
+		// is used again and overwritten
+		largest := 0
+		for _, p := range pkts {
+			largest = max(largest, len(p.payload))
+		}
+		extra := pk.Packet{ID: 0x33, Data: bytes.Repeat([]byte{0x5A}, largest+64)}
+		if len(extra.Data)+1 > 1<<21 {
+			extra.Data = extra.Data[:1<<21-1]
+		}
+		var scratch bytes.Buffer
+		var other pk.Packet
+		var err error
+		if c.Guard("unpack", wit(-1), func() {
+			for _, th := range []int{0, -1} {
+				scratch.Reset()
+				if err = extra.Pack(&scratch, th); err == nil {
+					err = other.UnPack(&scratch, th)
+				}
+				if err != nil {
+					return
+				}
+			}
+		}) {
+			return
+		}
+		if err != nil || !bytes.Equal(other.Data, extra.Data) {
+			c.Violation("unpack/error", fmt.Sprintf("a packet of %d equal bytes did not survive Pack and UnPack: err %v", len(extra.Data), err), wit(-1)())
+			return
+		}
+		if !recheck("after one larger packet was packed and unpacked") {
+			return
+		}
+		c.Cover("returned-data.rechecked-after-later-calls")
+	}
 	c.Cover("sequence.ok")
-	for _, p := range pkts {
+	if switchAt > 0 {
+		c.Cover("sequence.threshold-switched")
+		if useConn {
+			c.Cover("sequence.threshold-switched.via-conn")
+		}
+	}
+	if mixed && k >= 2 {
+		c.Cover("sequence.mixed-writers")
+	}
+	for i, p := range pkts {
 		if len(refwire.EncVarInt(p.id))+len(p.payload) == 1<<21 {
-			if threshold < 0 {
+			if thAt(i) < 0 {
 				c.Cover("payload.exactly-2MiB.plain")
 			} else {
 				c.Cover("payload.exactly-2MiB.compression-layer")
@@ -390,13 +530,30 @@ func checkRejection(c *vm.Ctx, r *vm.Rand, withBig bool) {
 	for _, total := range []int32{1<<21 + 1, 1<<21 + 6 + int32(len(id)), 1 << 22, 1<<31 - 1} {
 		cases = append(cases, rej{"plain.above-maximum", -1, refwire.RawFrame(total, id, body)})
 	}
-	// compression layer
-	th := []int{0, 1, 64, 256}[r.Intn(4)]
+	// compression layer: any threshold of the table, the large ones less often (their streams are long)
+	th := thresholds[1+r.Intn(len(thresholds)-1)]
+	if th > 256 && r.Intn(4) != 0 {
+		th = []int{0, 1, 64, 256}[r.Intn(4)]
+	}
 	zbody := func(n int) []byte {
+		if z, ok := zbodyCache[n]; ok {
+			return z
+		}
 		f := refwire.BuildFrame(0, make([]byte, max(0, n-1)), 0, true, 6)
 		_, k, _ := refwire.DecVarInt(f)
 		_, k2, _ := refwire.DecVarInt(f[k:])
-		return f[k+k2:] // just the zlib stream
+		z := f[k+k2:] // just the zlib stream
+		if len(zbodyCache) < 64 {
+			zbodyCache[n] = z
+		}
+		return z
+	}
+	// a negative total length in front of an otherwise well-formed compressed-mode frame
+	for _, total := range []int32{-1, -2147483648} {
+		z := zbody(max(th, 8))
+		dlen := vi(int32(max(th, 8)))
+		cases = append(cases, rej{"zlib.negative-total-length", th, refwire.RawFrame(total, dlen, z)})
+		cases = append(cases, rej{"zlib.negative-total-length", th, refwire.RawFrame(total, []byte{0}, id, body)})
 	}
 	for _, dl := range []int32{-1, -2147483648, -int32(r.Intn(1000)) - 2} {
 		z := zbody(8)
@@ -433,14 +590,35 @@ func checkRejection(c *vm.Ctx, r *vm.Rand, withBig bool) {
 			cases = append(cases, rej{"zlib.genuine-stream-above-maximum", th, refwire.RawFrame(int32(len(dl)+len(z)), dl, z)})
 		}
 	}
+	// the receiver: a fresh Packet, a Packet used before, or a Conn set to the threshold
+	how := r.Intn(3)
+	hname := []string{"Packet.UnPack into a fresh Packet", "Packet.UnPack into a Packet used before", "Conn.ReadPacket"}[how]
+	var used pk.Packet
+	if how == 1 {
+		used = pk.Packet{ID: 7, Data: bytes.Repeat([]byte{0x77}, r.Intn(300))}
+	}
 	for _, rc := range cases {
 		in := append(append([]byte{}, rc.frame...), r.Bytes(64)...)
 		wit := func() any {
-			return map[string]any{"case": rc.name, "threshold": rc.threshold, "stream_head": vm.Hex(in[:min(len(in), 64)])}
+			return map[string]any{"case": rc.name, "threshold": rc.threshold, "receiver": hname, "stream_head": vm.Hex(in[:min(len(in), 64)])}
 		}
 		var p pk.Packet
 		var err error
-		if c.Guard("reject/"+rc.name, wit, func() { err = p.UnPack(bytes.NewReader(in), rc.threshold) }) {
+		if c.Guard("reject/"+rc.name, wit, func() {
+			switch how {
+			case 0:
+				err = p.UnPack(bytes.NewReader(in), rc.threshold)
+			case 1:
+				err = used.UnPack(bytes.NewReader(in), rc.threshold)
+				p = used
+			default:
+				conn := mcnet.WrapConn(&fakeConn{r: bytes.NewReader(in)})
+				if rc.threshold >= 0 {
+					conn.SetThreshold(rc.threshold)
+				}
+				err = conn.ReadPacket(&p)
+			}
+		}) {
 			continue
 		}
 		c.Eval(vm.Hash64(in[:min(len(in), 48)], []byte(rc.name)), true)
@@ -449,14 +627,28 @@ func checkRejection(c *vm.Ctx, r *vm.Rand, withBig bool) {
 			continue
 		}
 		c.Cover("reject." + rc.name)
+		c.Cover("reject.via." + []string{"fresh-packet", "used-packet", "conn"}[how])
+		if rc.threshold > 256 {
+			c.Cover("reject.threshold-above-256")
+		}
 	}
 }
 
-// fakeConn is a read-only net.Conn over a byte stream.
-type fakeConn struct{ r *bytes.Reader }
+var zbodyCache = map[int][]byte{}
 
-func (f *fakeConn) Read(p []byte) (int, error)       { return f.r.Read(p) }
-func (f *fakeConn) Write(p []byte) (int, error)      { return len(p), nil }
+// fakeConn is a read-only net.Conn over a byte stream.
+type fakeConn struct {
+	r *bytes.Reader
+	w io.Writer // nil: discard
+}
+
+func (f *fakeConn) Read(p []byte) (int, error) { return f.r.Read(p) }
+func (f *fakeConn) Write(p []byte) (int, error) {
+	if f.w != nil {
+		return f.w.Write(p)
+	}
+	return len(p), nil
+}
 func (f *fakeConn) Close() error                     { return nil }
 func (f *fakeConn) LocalAddr() net.Addr              { return nil }
 func (f *fakeConn) RemoteAddr() net.Addr             { return nil }
@@ -485,11 +677,16 @@ func run(c *vm.Ctx) {
 	}
 	for i := 0; i < c.Scale(24, 200); i++ {
 		forceExact = i < 6 && c.Shard == 0
+		forceIndep = c.Shard == c.NShards-1 && !forceExact && (i == 0 || i == 6 && c.NShards == 1)
 		forceThreshold = []int{-1, 0, 256, -1, 64, 1 << 21}[i%6]
 		checkSequence(c, r, spy, true)
 		c.Cover("payload.near-2MiB")
 		spy.reset()
 		runtime.GC()
+	}
+	forceExact, forceIndep = false, false
+	if c.Shard == 1%c.NShards {
+		checkAcceptedConn(c, c.Rand("accepted-conn"))
 	}
 	ir := c.Rand("interop")
 	for i := 0; i < c.Scale(20000, 400000); i++ {
